@@ -32,6 +32,16 @@ structure Table where
   cols : List Col
 deriving DecidableEq, Repr
 
+/-- can a pandas array of this dtype hold the value? (`int64` and `bool` have no null) -/
+def valOk : Dtype → Val → Bool
+  | .int, .int _ => true
+  | .flt, .flt _ _ => true | .flt, .null => true
+  | .str, .str _ => true | .str, .null => true
+  | .bool, .bool _ => true
+  | .time, .time _ => true | .time, .null => true
+  | .obj, _ => true
+  | _, _ => false
+
 def Table.empty : Table := ⟨[], []⟩
 
 /-- every column has one cell per row, labels and column names are unique -/
@@ -265,18 +275,12 @@ def trackedTrue : Pred := .atom "tracked" .eq (.bool true)
 def needTracked (cols : List String) (q : Pred) : Bool :=
   !cols.isEmpty && !cols.contains "tracked" && !q.mentionsTracked
 
-/-- `query += " and tracked == True"`: the text is appended without parentheses, so Python's
-precedence attaches it to the last operand of a top-level `or` (`a or b and tracked == True`).
-The harness renders compound operands in parentheses and the top level bare, exactly this shape. -/
-def appendTracked : Pred → Pred
-  | .or a b => .or a (.and b trackedTrue)
-  | q => .and q trackedTrue
-
-/-- `PopulationManager._get_view` -/
+/-- `PopulationManager._get_view`: `query = f"({query}) and tracked == True"` (the user's query is
+parenthesised, fix F23) -/
 def mkView (cols : List String) (q : Pred) : View :=
   if !cols.isEmpty && !cols.contains "tracked" then
     if q = .tt then ⟨cols, trackedTrue⟩
-    else if !q.mentionsTracked then ⟨cols, appendTracked q⟩
+    else if !q.mentionsTracked then ⟨cols, .and q trackedTrue⟩
     else ⟨cols, q⟩
   else ⟨cols, q⟩
 
@@ -392,17 +396,19 @@ def promote : Dtype → Dtype
   | .bool => .obj
   | d => d
 
-/-- `DataFrame.reindex(new_index)`: existing labels keep their values, new labels get null; columns
-without a null representation are promoted -/
+/-- one column under `reindex`: existing labels keep their values, new labels get null; `grows` says
+whether any label is new, in which case columns without a null representation are promoted -/
+def reindexCol (rows newIndex : List Nat) (grows : Bool) (c : Col) : Col :=
+  { c with
+    dtype := if grows then promote c.dtype else c.dtype,
+    cells := newIndex.map (fun r =>
+      let v := (cellOf rows c.cells r).getD .null
+      if grows && c.dtype = .int then toFlt v else v) }
+
+/-- `DataFrame.reindex(new_index)` -/
 def reindex (t : Table) (newIndex : List Nat) : Table :=
-  let grows := newIndex.any (fun r => !t.rows.contains r)
   { rows := newIndex,
-    cols := t.cols.map (fun c =>
-      { c with
-        dtype := if grows then promote c.dtype else c.dtype,
-        cells := newIndex.map (fun r =>
-          let v := (cellOf t.rows c.cells r).getD .null
-          if grows && c.dtype = .int then toFlt v else v) }) }
+    cols := t.cols.map (reindexCol t.rows newIndex (newIndex.any (fun r => !t.rows.contains r))) }
 
 /-- first half of `PopulationManager._create_simulants`: grow the table, set the flags, compute the
 new labels (`new_population.index.difference(old.index)`, sorted) -/
@@ -432,9 +438,8 @@ inductive Op
 def runOps : Mgr → List Op → Mgr × List (List Nat)
   | m, [] => (m, [])
   | m, .create k :: ops =>
-    let (m', ls) := createBegin m k
-    let (m'', out) := runOps m' ops
-    (m'', ls :: out)
+    let r := runOps (createBegin m k).1 ops
+    (r.1, (createBegin m k).2 :: r.2)
   | m, .upd v u :: ops => runOps (applyUpdate m v u).1 ops
   | m, .endCreate :: ops => runOps (createEnd m) ops
 
